@@ -1,14 +1,15 @@
 """Factory for S1 properties whose oracle is `errors = f(orig, graph, stage)`."""
-from vf.s1common import s1_jobs, sig_of, graph_features
+from vf.s1common import s1_jobs, sig_of, graph_features, front_end_jobs
 from vf.oracles.hier import build_scfg, orig_map, STAGES, flatten, regions
 
 
-def make(oracle, stages=(1, 2, 3), payloads=("basic",), kind="structure", nontrivial=None, quick_n5_max_edges=None):
+def make(oracle, stages=(1, 2, 3), payloads=("basic",), kind="structure", nontrivial=None, quick_n5_max_edges=None, front_ends=True):
     """oracle(desc, orig_blocks, g, k, payload) -> list of error tuples."""
 
     def check(desc):
         fails = []
-        for payload in payloads:
+        front = desc.get("kind") in ("source", "bytecode")
+        for payload in (payloads[:1] if front else payloads):
             for k in stages:
                 g = build_scfg(desc, payload)
                 orig_blocks = dict(g.graph)
@@ -25,7 +26,7 @@ def make(oracle, stages=(1, 2, 3), payloads=("basic",), kind="structure", nontri
                     errs = [("oracle-exception", type(e).__name__, traceback.format_exc()[-300:])]
                 seen = set()
                 for err in errs:
-                    sg = f"s{k}:" + (f"{payload}:" if len(payloads) > 1 else "") + sig_of(err)
+                    sg = f"s{k}:" + (f"{payload}:" if len(payloads) > 1 and not front else "") + sig_of(err)
                     if sg in seen:
                         continue
                     seen.add(sg)
@@ -43,7 +44,7 @@ def make(oracle, stages=(1, 2, 3), payloads=("basic",), kind="structure", nontri
         g = build_scfg(desc)
         try:
             g.restructure()
-            nt = nontrivial(g, desc) if nontrivial else len(flatten(g)) > len(desc["names"])
+            nt = nontrivial(g, desc) if nontrivial else len(flatten(g)) > len(orig_map(desc))
             if nt:
                 ctx.nontrivial += 1
             if regions(g):
@@ -55,7 +56,10 @@ def make(oracle, stages=(1, 2, 3), payloads=("basic",), kind="structure", nontri
                 ctx.fail(f["kind"], f["signature"], desc, f["detail"])
 
     def jobs(tier):
-        return s1_jobs(tier, harness, quick_n5_max_edges=quick_n5_max_edges)
+        js = s1_jobs(tier, harness, quick_n5_max_edges=quick_n5_max_edges)
+        if front_ends:
+            js += front_end_jobs(tier, harness)
+        return js
 
     def replay(desc):
         return [f for f in check(desc) if f["kind"] != "skip"]
